@@ -8,12 +8,12 @@
 //!   hist A|B        estimators::counts with the width `cardinality` picks          -> comma list
 //!   card A|B        cardinality() and the f64 the estimator returned               -> card=<n> bits=<16 hex | nan>
 //!   cardint A|B     cardinality()                                                  -> <n>
-//!   bound A|B       | cardinality() - n | <= 6 * 1.04/sqrt(m) * n + 1 ?            -> within | outside
+//!   bound A|B       | cardinality() - n | <= c * 1.04/sqrt(m) * n + 1 ?  (c = 6; 8 for p = 6, 7; 11 for p = 5; 14 for p = 4) -> within | outside
 //!   joint           estimators::joint_mle(A, B, p, q)                              -> a=<onlyA> b=<onlyB> i=<inter>
 //!   api             A.union(B) A.intersection(B) A.similarity(B) A.containment(B)  -> u=.. i=.. s=<bits> c=<bits>
 //!   consist         the four API answers all derive from one joint_mle triple       -> consistent | inconsistent <what>
 //!   jhist           joint_mle's only-A/only-B equal mle(counts(merge(A,B))) - mle(counts(B|A)) at relerr 0.01 -> same | differ
-//!   jbound          union / intersection estimates against the true sizes (10 sigma of |A ∪ B|, + 1) -> within | outside <what>
+//!   jbound          union / intersection estimates against the true sizes (10 sigma of |A ∪ B|, + 1; 13 sigma for p = 5, 16 for p = 4) -> within | outside <what>
 //!
 //! histories: a sketch that already has content receives more, through every entry point; the true
 //! set of a sketch is then a union of index ranges and every op above refers to that union
@@ -23,8 +23,26 @@
 //!                                   `mh.update(&mut hll)` / hll_update_mh                            -> nz=..
 //!   mrg A|B                         A.merge(&B) / B.merge(&A)                                        -> nz=..
 //!   reload A|B file|gz|buf          save + from_path / hll_to_buffer + from_reader / BufReader      -> nz=..
+//!   addmany A|B <start> <n>         add_many(&[splitmix64(i)..])                                     -> nz=..
+//!   addffi A|B <start> <n>          hll_add_hash (C API) per hash                                    -> nz=..
+//!   addseq A|B api|ffi <dna>        add_sequence(dna, false) / hll_add_sequence; the true set grows by the
+//!                                   distinct canonical 21-mer hashes (counted with a scaled=1 KmerMinHash) -> nz=..
+//!   mrgffi A|B                      hll_merge (C API)                                                -> nz=..
+//!
+//! Every estimate is asked ON THE SKETCH OBJECT ITSELF (never on a copy), so that an answer that does
+//! not follow the registers - something remembered from before the last mutation - is observed:
+//!   cardffi A|B     hll_cardinality                                                -> <n>
+//!   apiffi          hll_intersection_size, hll_similarity, hll_containment          -> i=.. s=<bits> c=<bits>
+//!   fresh A|B       cardinality() / hll_cardinality of the object against the same calls on a sketch freshly
+//!                   loaded from its saved bytes (same registers, no history)        -> same | differ <obj> <fresh>
+//!   freshj          union/intersection/similarity/containment (native and C API) of the two objects, both
+//!                   orders, against the freshly loaded pair                          -> same | differ <what>
 use sourmash::encodings::HashFunctions;
-use sourmash::ffi::hyperloglog::{hll_to_buffer, hll_update_mh, SourmashHyperLogLog};
+use sourmash::ffi::hyperloglog::{
+    hll_add_hash, hll_add_sequence, hll_cardinality, hll_containment, hll_intersection_size, hll_merge, hll_similarity, hll_to_buffer,
+    hll_update_mh, SourmashHyperLogLog,
+};
+use std::os::raw::c_char;
 use sourmash::ffi::minhash::SourmashKmerMinHash;
 use sourmash::ffi::utils::ForeignObject;
 use sourmash::prelude::*;
@@ -201,6 +219,7 @@ fn gen(a: &Args) {
                 at = at.max(from + n);
                 if r.chance(1, 2) {
                     v.push("bound A".into());
+                    v.push("fresh A".into());
                 }
             }
             for op in ["hist A", "card A", "bound A"] {
@@ -229,6 +248,78 @@ fn gen(a: &Args) {
             o.push(("reload".into(), v));
         }
     }
+    // ---- estimates BEFORE and AFTER every kind of mutation, on the same objects: each step asks A (and
+    // the pair) first, mutates A through one entry point so that its true size grows by a factor of
+    // about two (far outside the window of the old value for p >= 8), and asks again
+    const KINDS: [&str; 11] = ["add", "mrg", "addmany", "upd api", "mrgffi", "addffi", "upd ffi", "addseq api", "reload", "addseq ffi", "mrg B"];
+    let reps = if thorough { 8 } else { 4 };
+    for p in 4..=18u32 {
+        let m = 1u64 << p;
+        let cap = if thorough { 4 * m } else { 16_000 };
+        for rep in 0..reps {
+            let s = r.bits(40);
+            // A starts empty (and is asked while empty) or with some content
+            let n0 = if (rep + p as u64) % 2 == 0 { 0 } else { r.range(m / 4, m).min(cap) };
+            let mut v = vec![format!("A {} {} {}", p, s, n0), format!("B {} {} {}", p, s + r.below(n0 + 1), r.range(1, m).min(cap))];
+            let mut at = s + n0;
+            let mut have = n0;
+            let nsteps = if thorough { r.range(5, 11) } else { 6 };
+            let first = r.below(11);
+            for step in 0..nsteps {
+                // before
+                v.push((if r.chance(1, 2) { "cardint A" } else { "cardffi A" }).into());
+                if r.chance(1, 2) {
+                    v.push((if r.chance(1, 2) { "api" } else { "apiffi" }).into());
+                }
+                let n = have.max((m / 4).max(8)).min(cap);
+                let from = if r.chance(1, 4) { at.saturating_sub(r.below(n / 2 + 1)).max(s) } else { at + r.below(50) };
+                let kind = KINDS[((first + step * 4 + rep) % 11) as usize];
+                match kind {
+                    "add" | "addmany" | "addffi" => v.push(format!("{} A {} {}", kind, from, n)),
+                    "upd api" | "upd ffi" => v.push(format!("{} {} {} {}", kind.replace("upd", "upd A"), if r.chance(1, 3) { n + r.below(3) } else { 0 }, from, n)),
+                    "mrg" | "mrgffi" => {
+                        v.push(format!("B {} {} {}", p, from, n));
+                        if r.chance(1, 2) {
+                            v.push((if r.chance(1, 2) { "cardint B" } else { "cardffi B" }).into());
+                        }
+                        v.push(format!("{} A", kind));
+                    }
+                    "mrg B" => {
+                        // the other object is the receiver, after having been asked
+                        v.push("cardint B".into());
+                        v.push((if r.chance(1, 2) { "mrg B" } else { "mrgffi B" }).into());
+                        v.push("cardint B".into());
+                        v.push("fresh B".into());
+                        v.push("bound B".into());
+                    }
+                    "reload" => v.push(format!("reload A {}", *r.pick(&["file", "gz", "buf"]))),
+                    _ => {
+                        let len = n.min(if thorough { 6000 } else { 1500 }) + 20;
+                        let dna: String = (0..len).map(|_| *r.pick(b"ACGT") as char).collect();
+                        v.push(format!("{} {}", kind.replace("addseq", "addseq A"), dna));
+                    }
+                }
+                if !matches!(kind, "mrg B" | "reload") && !kind.starts_with("addseq") {
+                    at = at.max(from + n);
+                    have = at - s;
+                }
+                // after
+                v.push((if r.chance(1, 2) { "cardint A" } else { "cardffi A" }).into());
+                v.push("fresh A".into());
+                v.push("bound A".into());
+                if r.chance(1, 2) {
+                    v.push("card A".into());
+                }
+                v.push((if r.chance(1, 2) { "api" } else { "apiffi" }).into());
+                v.push("freshj".into());
+                if r.chance(1, 2) {
+                    v.push("consist".into());
+                    v.push("jbound".into());
+                }
+            }
+            o.push(("before-after".into(), v));
+        }
+    }
     for i in (1..o.len()).rev() {
         let j = r.below(i as u64 + 1) as usize;
         o.swap(i, j);
@@ -248,8 +339,18 @@ fn gen(a: &Args) {
 struct Sk {
     h: HyperLogLog,
     p: usize,
-    /// the true set: the union of these index ranges (start, n) of the splitmix64 stream
+    /// the true set: the union of these index ranges (start, n) of the splitmix64 stream ...
     ranges: Vec<(u64, u64)>,
+    /// ... plus these hashes (k-mers of `addseq`; sorted, distinct; taken to be outside the stream)
+    extra: Vec<u64>,
+}
+
+fn merge_sorted(a: &[u64], b: &[u64]) -> Vec<u64> {
+    let mut v = a.to_vec();
+    v.extend_from_slice(b);
+    v.sort_unstable();
+    v.dedup();
+    v
 }
 
 /// size of a union of index ranges
@@ -269,7 +370,7 @@ fn union_size(ranges: &[(u64, u64)]) -> u64 {
 
 impl Sk {
     fn n(&self) -> u64 {
-        union_size(&self.ranges)
+        union_size(&self.ranges) + self.extra.len() as u64
     }
 }
 
@@ -352,22 +453,51 @@ fn within(est: u64, truth: u64, scale: u64, p: usize, mult: u64, slack: u64) -> 
     }
 }
 
+/// a sketch with the same registers and no history: loaded from the saved bytes
+fn reloaded(h: &HyperLogLog) -> HyperLogLog {
+    let mut buf = vec![];
+    h.save_to_writer(&mut buf).unwrap();
+    HyperLogLog::from_reader(&buf[..]).unwrap()
+}
+
+/// window multipliers (in units of 1.04/sqrt(m)).  The nominal sigma describes the estimator for
+/// large m; for 16 / 32 registers its error distribution is heavy-tailed (measured on the unchanged
+/// tree over 50 000 random sample sets per precision: p = 4 worst 10.3 sigma, 17 beyond 6; p = 5 worst
+/// 8.1, 4 beyond 6; p = 6, 7 worst 5.9; p >= 8 worst 4.8; union of random pairs: p = 4 8 of 40 000
+/// beyond 10 sigma, p = 5 2, none from p = 6 on), so the small precisions get wider windows
+fn card_mult(p: usize) -> u64 {
+    match p {
+        4 => 14,
+        5 => 11,
+        6 | 7 => 8,
+        _ => 6,
+    }
+}
+fn joint_mult(p: usize) -> u64 {
+    match p {
+        4 => 16,
+        5 => 13,
+        _ => 10,
+    }
+}
+
 fn overlap(a: &Sk, b: &Sk) -> (u64, u64) {
     // true |A ∩ B| and |A ∪ B| of the two unions of index ranges (splitmix64 is injective)
     let mut all = a.ranges.clone();
     all.extend_from_slice(&b.ranges);
-    let union = union_size(&all);
+    let union = union_size(&all) + merge_sorted(&a.extra, &b.extra).len() as u64;
     (a.n() + b.n() - union, union)
 }
 
 fn step(st: &mut St, ws: &[&str]) -> String {
-    let which = |st: &St, w: &str| -> Option<Sk> {
+    // a shared borrow of the sketch object itself: estimates are never asked on a copy
+    fn which<'a>(st: &'a St, w: &str) -> Option<&'a Sk> {
         if w == "A" {
-            st.a.clone()
+            st.a.as_ref()
         } else {
-            st.b.clone()
+            st.b.as_ref()
         }
-    };
+    }
     match ws[0] {
         "case" => "ok".into(),
         "A" | "B" => {
@@ -378,7 +508,7 @@ fn step(st: &mut St, ws: &[&str]) -> String {
             for i in 0..n {
                 h.add_hash(splitmix64(start + i));
             }
-            let sk = Some(Sk { h, p, ranges: vec![(start, n)] });
+            let sk = Some(Sk { h, p, ranges: vec![(start, n)], extra: vec![] });
             let nz = nz(&sk.as_ref().unwrap().h);
             if ws[0] == "A" {
                 st.a = sk
@@ -387,7 +517,7 @@ fn step(st: &mut St, ws: &[&str]) -> String {
             }
             format!("nz={}", nz)
         }
-        "add" | "upd" | "reload" => {
+        "add" | "upd" | "reload" | "addmany" | "addffi" | "addseq" => {
             let sk = match if ws[1] == "A" { st.a.as_mut() } else { st.b.as_mut() } {
                 Some(s) => s,
                 None => return "none".into(),
@@ -399,6 +529,34 @@ fn step(st: &mut St, ws: &[&str]) -> String {
                         sk.h.add_hash(splitmix64(start + i));
                     }
                     sk.ranges.push((start, n));
+                }
+                "addmany" => {
+                    let (start, n): (u64, u64) = (ws[2].parse().unwrap(), ws[3].parse().unwrap());
+                    let hs: Vec<u64> = (0..n).map(|i| splitmix64(start + i)).collect();
+                    sk.h.add_many(&hs).unwrap();
+                    sk.ranges.push((start, n));
+                }
+                "addffi" => {
+                    let (start, n): (u64, u64) = (ws[2].parse().unwrap(), ws[3].parse().unwrap());
+                    let ptr = &mut sk.h as *mut HyperLogLog as *mut SourmashHyperLogLog;
+                    for i in 0..n {
+                        unsafe { hll_add_hash(ptr, splitmix64(start + i)) };
+                    }
+                    sk.ranges.push((start, n));
+                }
+                "addseq" => {
+                    let seq = ws[3].as_bytes();
+                    // the true set of the sequence, counted by a different structure
+                    let mut mh = KmerMinHash::new(1, 21, HashFunctions::Murmur64Dna, 42, false, 0);
+                    mh.add_sequence(seq, false).unwrap();
+                    if ws[2] == "ffi" {
+                        unsafe {
+                            hll_add_sequence(&mut sk.h as *mut HyperLogLog as *mut SourmashHyperLogLog, seq.as_ptr() as *const c_char, seq.len(), false)
+                        };
+                    } else {
+                        sk.h.add_sequence(seq, false).unwrap();
+                    }
+                    sk.extra = merge_sorted(&sk.extra, &mh.mins());
                 }
                 "upd" => {
                     let (num, start, n): (u32, u64, u64) = (ws[3].parse().unwrap(), ws[4].parse().unwrap(), ws[5].parse().unwrap());
@@ -445,15 +603,72 @@ fn step(st: &mut St, ws: &[&str]) -> String {
             }
             format!("nz={}", nz(&sk.h))
         }
-        "mrg" => {
+        "mrg" | "mrgffi" => {
             let (dst, src) = if ws[1] == "A" { (st.a.as_mut(), st.b.as_ref()) } else { (st.b.as_mut(), st.a.as_ref()) };
             match (dst, src) {
                 (Some(d), Some(s)) => {
-                    d.h.merge(&s.h).unwrap();
+                    if ws[0] == "mrgffi" {
+                        unsafe { hll_merge(&mut d.h as *mut HyperLogLog as *mut SourmashHyperLogLog, SourmashHyperLogLog::from_ref(&s.h)) };
+                    } else {
+                        d.h.merge(&s.h).unwrap();
+                    }
                     d.ranges.extend_from_slice(&s.ranges);
+                    d.extra = merge_sorted(&d.extra, &s.extra);
                     format!("nz={}", nz(&d.h))
                 }
                 _ => "none".into(),
+            }
+        }
+        "cardffi" => match which(st, ws[1]) {
+            Some(s) => unsafe { hll_cardinality(SourmashHyperLogLog::from_ref(&s.h)) }.to_string(),
+            None => "none".into(),
+        },
+        "fresh" => match which(st, ws[1]) {
+            Some(s) => {
+                let f = reloaded(&s.h);
+                let (o1, o2) = (s.h.cardinality(), unsafe { hll_cardinality(SourmashHyperLogLog::from_ref(&s.h)) });
+                let (f1, f2) = (f.cardinality(), unsafe { hll_cardinality(SourmashHyperLogLog::from_ref(&f)) });
+                if (o1, o2) == (f1, f2) {
+                    "same".into()
+                } else {
+                    format!("differ {},{} {},{}", o1, o2, f1, f2)
+                }
+            }
+            None => "none".into(),
+        },
+        "apiffi" | "freshj" => {
+            let (a, b) = match (st.a.as_ref(), st.b.as_ref()) {
+                (Some(a), Some(b)) => (a, b),
+                _ => return "none".into(),
+            };
+            if ws[0] == "apiffi" {
+                let (pa, pb) = unsafe { (SourmashHyperLogLog::from_ref(&a.h), SourmashHyperLogLog::from_ref(&b.h)) };
+                let (i, s, c) = unsafe { (hll_intersection_size(pa, pb), hll_similarity(pa, pb), hll_containment(pa, pb)) };
+                format!("i={} s={} c={}", i, bits(s), bits(c))
+            } else {
+                let (fa, fb) = (reloaded(&a.h), reloaded(&b.h));
+                let all = |x: &HyperLogLog, y: &HyperLogLog| -> Vec<String> {
+                    let (px, py) = unsafe { (SourmashHyperLogLog::from_ref(x), SourmashHyperLogLog::from_ref(y)) };
+                    vec![
+                        x.union(y).to_string(),
+                        x.intersection(y).to_string(),
+                        bits(x.similarity(y)),
+                        bits(x.containment(y)),
+                        y.union(x).to_string(),
+                        bits(y.containment(x)),
+                        unsafe { hll_intersection_size(px, py) }.to_string(),
+                        bits(unsafe { hll_similarity(px, py) }),
+                        bits(unsafe { hll_containment(px, py) }),
+                    ]
+                };
+                let (o, f) = (all(&a.h, &b.h), all(&fa, &fb));
+                if o == f {
+                    "same".into()
+                } else {
+                    let names = ["union", "intersection", "similarity", "containment", "union-rev", "containment-rev", "ffi-intersection", "ffi-similarity", "ffi-containment"];
+                    let bad: Vec<&str> = (0..o.len()).filter(|i| o[*i] != f[*i]).map(|i| names[i]).collect();
+                    format!("differ {}", bad.join(","))
+                }
             }
         }
         "hist" => match which(st, ws[1]) {
@@ -470,7 +685,7 @@ fn step(st: &mut St, ws: &[&str]) -> String {
         },
         "bound" => match which(st, ws[1]) {
             Some(s) => {
-                if within(s.h.cardinality() as u64, s.n(), s.n(), s.p, 6, 1) {
+                if within(s.h.cardinality() as u64, s.n(), s.n(), s.p, card_mult(s.p), 1) {
                     "within".into()
                 } else {
                     "outside".into()
@@ -534,12 +749,12 @@ fn step(st: &mut St, ws: &[&str]) -> String {
                     // with a negative intersection clipped to 0 (which biases the union of disjoint
                     // sets upwards).  Window: 10 sigma of the union size, + 1 (worst seen on the
                     // unchanged tree over 8 seeds / both tiers: 7.4 sigma at p = 4, 5.1 at p = 18).
-                    if !within(u, tu, tu, p, 10, 1) {
+                    if !within(u, tu, tu, p, joint_mult(p), 1) {
                         bad.push("union")
                     }
                     // the intersection is a difference of estimates of size ~ |A ∪ B|: its error
                     // scales with the union, not with the intersection itself
-                    if !within(it as u64, ti, tu, p, 10, 1) {
+                    if !within(it as u64, ti, tu, p, joint_mult(p), 1) {
                         bad.push("intersection")
                     }
                     if bad.is_empty() {
